@@ -204,24 +204,33 @@ class Driver:
         return r
 
     def batch(self, reqs):
-        """Send many requests, read many answers (pipelined in chunks)."""
+        """Send many requests, read many answers. A writer thread feeds stdin while this thread
+        drains stdout, so the two pipes can never dead-lock on a full buffer."""
+        import threading
+
+        err = []
+
+        def writer():
+            try:
+                for i in range(0, len(reqs), 500):
+                    self.p.stdin.write("".join(json.dumps(r, ensure_ascii=False) + "\n" for r in reqs[i:i + 500]))
+                self.p.stdin.flush()
+            except Exception as exc:  # noqa
+                err.append(exc)
+
+        th = threading.Thread(target=writer, daemon=True)
+        th.start()
         out = []
-        CH = 2000
-        for i in range(0, len(reqs), CH):
-            chunk = reqs[i:i + CH]
-            data = "".join(json.dumps(r, ensure_ascii=False) + "\n" for r in chunk)
-            # avoid pipe deadlock: write in a thread-free manner by limiting chunk size
-            self.p.stdin.write(data)
-            self.p.stdin.flush()
-            for r in chunk:
-                line = self.p.stdout.readline()
-                if not line:
-                    raise MachineryError("driver died in batch")
-                res = json.loads(line)
-                if isinstance(res, dict) and "error" in res:
-                    raise MachineryError(f"driver error: {res['error']} :: {json.dumps(r, ensure_ascii=False)[:300]}")
-                out.append(res)
-            self.calls += len(chunk)
+        for r in reqs:
+            line = self.p.stdout.readline()
+            if not line:
+                raise MachineryError(f"driver died in batch ({err})")
+            res = json.loads(line)
+            if isinstance(res, dict) and "error" in res:
+                raise MachineryError(f"driver error: {res['error']} :: {json.dumps(r, ensure_ascii=False)[:300]}")
+            out.append(res)
+        th.join()
+        self.calls += len(reqs)
         return out
 
     def close(self):
@@ -395,8 +404,11 @@ def finish(ctx):
         "broken": ctx.broken,
         "notes": ctx.notes,
     }
-    (VERIF / "evidence").mkdir(exist_ok=True)
-    (VERIF / "evidence" / f"{ctx.pid}.json").write_text(
+    # evidence of a run against a patched copy of the repository (seed trials) must never replace the
+    # committed evidence of the unchanged tree
+    ev_dir = Path(os.environ.get("VERIF_EVIDENCE_DIR") or (VERIF / "evidence"))
+    ev_dir.mkdir(parents=True, exist_ok=True)
+    (ev_dir / f"{ctx.pid}.json").write_text(
         json.dumps(ev, indent=1, ensure_ascii=False, default=str), encoding="utf-8"
     )
     for l in lines:
